@@ -149,6 +149,22 @@ def pumped(n):
     }
 
 
+def code_blank_docs():
+    """code blocks holding runs of 1..4 empty lines, in every container: no blank code line may come out with trailing spaces"""
+    out = []
+    conts = [("", ""), ("- ", "  "), ("> ", "> "), ("1. ", "   "), ("- > ", "  > "), ("> - ", ">   "), ("[^1]: ", "    "), ("- a\n  - ", "    "), ("10. ", "    ")]
+    for first, cont in conts:
+        for fence in ("```", "~~~~"):
+            for run in (1, 2, 3, 4):
+                lines = [fence + "py", "a"] + [""] * run + ["b"] + ([""] * (run - 1) + ["c"] if run > 1 else []) + [fence]
+                body = "\n".join((first if j == 0 else cont.rstrip() if l == "" else cont) + l for j, l in enumerate(lines))
+                out.append(("x[^1]\n\n" if first.startswith("[^") else "") + body + "\n")
+        for run in (1, 2, 3):      # indented code
+            lines = ["para", "", "    a"] + [""] * run + ["    b"]
+            out.append("\n".join((first if j == 0 else cont.rstrip() if l == "" else cont) + l for j, l in enumerate(lines)) + "\n")
+    return out
+
+
 def nested(depth):
     return {"quote_nest": "> " * depth + "deep", "list_nest": "\n".join("  " * i + "- l" + str(i) for i in range(depth)),
             "mixed_nest": "".join(("> " if i % 2 else "- ") for i in range(depth)) + "x"}
@@ -182,6 +198,7 @@ def run(tier: str) -> int:
     texts += [t for _, t in corpus.RICH] * 24
     for d in (1, 4, 8, 12):
         texts += list(nested(d).values())
+    texts += code_blank_docs() * 3          # x 3: each copy meets another option point
     jobs = [(i + chk.seed, x, i % 9 == 0) for i, x in enumerate(texts)]
     results = pmap(call, jobs, chunksize=200)
     traces, metas = [], {}
